@@ -80,6 +80,30 @@ def r_id(graph, q):
     return identify_outcomes(graph, {V(x) for x in q[0]}, {V(y) for y in q[1]})
 
 
+_IDENTS: dict = {}
+
+
+def r_identify(graph, q):
+    """ID on ONE Identification object per (graph object, query), asked again after the graph it holds was edited
+    (identify_outcomes builds a new one on a copy of the graph each time)."""
+    from y0.algorithm.identify import Identification, Unidentifiable, identify
+    from y0.dsl import P
+
+    key = (id(graph), q[0][0], q[1][0])
+    hit = _IDENTS.get(key)
+    if hit is None or hit[0] is not graph:
+        ident = Identification.from_expression(graph=graph, query=P(V(q[1][0]) @ V(q[0][0])))
+        if ident.graph is not graph:
+            ident.graph = graph  # hold the caller's own graph object
+        hit = _IDENTS[key] = (graph, ident)
+        if len(_IDENTS) > 20000:
+            _IDENTS.clear()
+    try:
+        return identify(hit[1])
+    except Unidentifiable:
+        return "unidentifiable"
+
+
 def r_idc(graph, q):
     from y0.algorithm.identify import identify_outcomes
 
@@ -194,7 +218,8 @@ RUNS = {
     "C08": {"idc_star": (r_idcstar, events1)},
     "C09": {"unconditional_cft": (r_ctf, events1)},
     "C16": {"LV-DAG round trip": (r_lvdag, one_query), "evans_simplify": (r_evans, singles)},
-    "C01": {"identify_outcomes": (r_id, xy)},
+    "C01": {"identify_outcomes": (r_id, xy), "identify(Identification)": (r_identify, xy)},
+    "C02": {"identify(Identification)": (r_identify, xy), "identify_outcomes": (r_id, xy)},
     "C03": {"identify_outcomes(conditions)": (r_idc, xyz)},
     "C04": {"are_d_separated": (r_dsep, pairs_with_sets)},
     "C07": {"id_star": (r_idstar, events1)},
